@@ -3,6 +3,8 @@ import NurbsVerif.Lemmas.InsertModel
 import NurbsVerif.Lemmas.RemoveInvLib
 import NurbsVerif.Lemmas.RemoveInvSurf
 import NurbsVerif.Lemmas.RemoveInvVol
+import NurbsVerif.Lemmas.RemoveObjFold
+import NurbsVerif.Lemmas.InsertObjExamples
 
 /-!
 # C06  Removing a removable knot is exact and inverts insertion
@@ -15,7 +17,8 @@ Proved here (every degree / position / prior multiplicity / count): the knot vec
 restores the original net) for curves, for both directions of surfaces and all three directions of
 volumes (gather / scatter of iso-curves as `operations.remove_knot` does it), the arguments the
 library computes for the removal (span `k + r`, multiplicity `s + r`), the object-level round trip
-for curves, and equality of evaluated curve points.  Not proved: removability of knots that were not
+for curves, surfaces and volumes (one requested direction per call), and equality of evaluated
+points.  Not proved: insertion in several directions followed by removal in several directions; removability of knots that were not
 inserted immediately before (refinement, "whenever removable at all").
 Proof idea (Lemmas/RemoveInv*.lean): in removal step `t` the left sweep solves
 `Q_i = α_i P_i + (1-α_i) P_{i-1}` for `P_i`, the right sweep for `P_{j-1}`; the removal alphas on
@@ -307,5 +310,123 @@ example : findSpanLinear 2 (fnOf ([0,0,0,1,2,2,2] : List ℚ)) 4 1 = 3 ∧ findM
 /-- non-vacuity / concrete instance (knot vector part) -/
 example : knotRemovalKv (knotInsertionKv ([0,0,0,1,1,1] : List ℚ) (1/2) 2 2) 4 2 = [0,0,0,1,1,1] := by
   decide
+
+/-! ### object level, surfaces and volumes: `operations.insert_knot` then `operations.remove_knot`
+
+`RoundOk S dir ub r tol`: the request "insert `ub` `r ≥ 1` times into direction `dir`" is admissible
+(`DirReqOk`, see C04: inside the half-open domain, `r + s ≤ p` with `s` the multiplicity the library
+computes), `0 ≤ tol`, and the computed multiplicity is the true one (the knot before the run of `s`
+copies is strictly smaller than `ub`).  `OnlyDir dir params nums`: the parameter / count lists request
+direction `dir` only (all other entries are `None` or `0`).  The removal runs on the refined object
+with the library's own searches: span `k + r`, multiplicity `s + r`. -/
+
+/-- **Surfaces, object-level round trip** (`dir = 0`: u, `dir = 1`: v): `insert_knot` followed by
+    `remove_knot` with the same parameter and count lists returns the ORIGINAL object – degrees, both
+    knot vectors, both sizes, every control point – and reports success; for either setting of the
+    two `check` flags. -/
+theorem surface_insert_then_remove (d : ℕ) (S : Shape K) (hS : SurfWF d S) (dir : ℕ) (hdir : dir < 2)
+    (params : List (Option K)) (nums : List ℕ) (ub tol tol2 : K) (c1 c2 : Bool)
+    (ho : OnlyDir dir params nums) (hp : params.getD dir none = some ub)
+    (h : RoundOk S dir ub (nums.getD dir 0) tol) (h2 : 0 ≤ tol2) :
+    removeKnot (insertKnot S params nums tol c1).1 params nums tol tol2 c2 = (S, true) :=
+  (surface_insertKnot_removeKnot d S hS dir hdir params nums ub tol tol2 c1 c2 ho hp h h2).1
+
+/-- **… and the removal does not change the shape**: at every parameter pair of the domain the point
+    of the surface after the removal equals the point of the refined surface before it (which, by C04
+    `insertKnot_preserves_surface`, equals the point of the original). -/
+theorem surface_remove_after_insert_preserves_points (d : ℕ) (S : Shape K) (hS : SurfWF d S) (dir : ℕ) (hdir : dir < 2)
+    (params : List (Option K)) (nums : List ℕ) (ub tol tol2 : K) (c1 c2 : Bool)
+    (ho : OnlyDir dir params nums) (hp : params.getD dir none = some ub)
+    (h : RoundOk S dir ub (nums.getD dir 0) tol) (h2 : 0 ≤ tol2)
+    (u v : K) (hu1 : fnOf (S.kv 0) (S.deg 0) ≤ u) (hu2 : u ≤ fnOf (S.kv 0) (S.size 0))
+    (hv1 : fnOf (S.kv 1) (S.deg 1) ≤ v) (hv2 : v ≤ fnOf (S.kv 1) (S.size 1)) (j : ℕ) :
+    (surfEval (removeKnot (insertKnot S params nums tol c1).1 params nums tol tol2 c2).1 u v).getD j 0
+      = (surfEval (insertKnot S params nums tol c1).1 u v).getD j 0 :=
+  let a := (surface_insertKnot_removeKnot d S hS dir hdir params nums ub tol tol2 c1 c2 ho hp h h2).2
+  let b := (insertKnot_surface' d S hS params nums tol c1 (callOk_of_roundOk 2 S dir params nums ub tol ho hp h)).1
+  a.eval u v (by rw [b.lo0]; exact hu1) (by rw [b.hi0]; exact hu2) (by rw [b.lo1]; exact hv1) (by rw [b.hi1]; exact hv2) j
+
+/-- **Surfaces, partial removal at object level**: `r` copies in (count list `nums`), `t` copies out
+    (`nums'`, `1 ≤ t ≤ r`) gives exactly the object that inserting `r - t` copies produces
+    (`insDirOf S dir ub (r - t) tol` is what `insertKnotDir S dir ub (r - t)` returns). -/
+theorem surface_insert_r_remove_t_object (d : ℕ) (S : Shape K) (hS : SurfWF d S) (dir : ℕ) (hdir : dir < 2)
+    (params : List (Option K)) (nums nums' : List ℕ) (ub tol tol2 : K) (c1 c2 : Bool)
+    (ho : OnlyDir dir params nums) (ho' : OnlyDir dir params nums') (hp : params.getD dir none = some ub)
+    (h : RoundOk S dir ub (nums.getD dir 0) tol) (h2 : 0 ≤ tol2)
+    (ht1 : 1 ≤ nums'.getD dir 0) (htr : nums'.getD dir 0 ≤ nums.getD dir 0) :
+    removeKnot (insertKnot S params nums tol c1).1 params nums' tol tol2 c2
+      = (insDirOf S dir ub (nums.getD dir 0 - nums'.getD dir 0) tol, true) :=
+  surface_insertKnot_removeKnot_t d S hS dir hdir params nums nums' ub tol tol2 c1 c2 ho ho' hp h h2 ht1 htr
+
+/-- **Volumes, object-level round trip** (`dir = 0, 1, 2`: u, v, w). -/
+theorem volume_insert_then_remove (d : ℕ) (S : Shape K) (hS : VolWF d S) (dir : ℕ) (hdir : dir < 3)
+    (params : List (Option K)) (nums : List ℕ) (ub tol tol2 : K) (c1 c2 : Bool)
+    (ho : OnlyDir dir params nums) (hp : params.getD dir none = some ub)
+    (h : RoundOk S dir ub (nums.getD dir 0) tol) (h2 : 0 ≤ tol2) :
+    removeKnot (insertKnot S params nums tol c1).1 params nums tol tol2 c2 = (S, true) :=
+  (volume_insertKnot_removeKnot d S hS dir hdir params nums ub tol tol2 c1 c2 ho hp h h2).1
+
+/-- **… and the removal does not change any volume point.** -/
+theorem volume_remove_after_insert_preserves_points (d : ℕ) (S : Shape K) (hS : VolWF d S) (dir : ℕ) (hdir : dir < 3)
+    (params : List (Option K)) (nums : List ℕ) (ub tol tol2 : K) (c1 c2 : Bool)
+    (ho : OnlyDir dir params nums) (hp : params.getD dir none = some ub)
+    (h : RoundOk S dir ub (nums.getD dir 0) tol) (h2 : 0 ≤ tol2)
+    (u v w : K) (hu1 : fnOf (S.kv 0) (S.deg 0) ≤ u) (hu2 : u ≤ fnOf (S.kv 0) (S.size 0))
+    (hv1 : fnOf (S.kv 1) (S.deg 1) ≤ v) (hv2 : v ≤ fnOf (S.kv 1) (S.size 1))
+    (hw1 : fnOf (S.kv 2) (S.deg 2) ≤ w) (hw2 : w ≤ fnOf (S.kv 2) (S.size 2)) (j : ℕ) :
+    (volEval (removeKnot (insertKnot S params nums tol c1).1 params nums tol tol2 c2).1 u v w).getD j 0
+      = (volEval (insertKnot S params nums tol c1).1 u v w).getD j 0 :=
+  let a := (volume_insertKnot_removeKnot d S hS dir hdir params nums ub tol tol2 c1 c2 ho hp h h2).2
+  let b := (insertKnot_volume' d S hS params nums tol c1 (callOk_of_roundOk 3 S dir params nums ub tol ho hp h)).1
+  a.eval u v w (by rw [b.lo0]; exact hu1) (by rw [b.hi0]; exact hu2) (by rw [b.lo1]; exact hv1) (by rw [b.hi1]; exact hv2)
+    (by rw [b.lo2]; exact hw1) (by rw [b.hi2]; exact hw2) j
+
+/-- **Volumes, partial removal at object level.** -/
+theorem volume_insert_r_remove_t_object (d : ℕ) (S : Shape K) (hS : VolWF d S) (dir : ℕ) (hdir : dir < 3)
+    (params : List (Option K)) (nums nums' : List ℕ) (ub tol tol2 : K) (c1 c2 : Bool)
+    (ho : OnlyDir dir params nums) (ho' : OnlyDir dir params nums') (hp : params.getD dir none = some ub)
+    (h : RoundOk S dir ub (nums.getD dir 0) tol) (h2 : 0 ≤ tol2)
+    (ht1 : 1 ≤ nums'.getD dir 0) (htr : nums'.getD dir 0 ≤ nums.getD dir 0) :
+    removeKnot (insertKnot S params nums tol c1).1 params nums' tol tol2 c2
+      = (insDirOf S dir ub (nums.getD dir 0 - nums'.getD dir 0) tol, true) :=
+  volume_insertKnot_removeKnot_t d S hS dir hdir params nums nums' ub tol tol2 c1 c2 ho ho' hp h h2 ht1 htr
+
+/-- `insDirOf` is what one direction of `insert_knot` returns for an admissible request -/
+theorem insertKnotDir_is_insDirOf (S : Shape K) (dir : ℕ) (ub : K) (r : ℕ) (tol : K) (check : Bool)
+    (hrs : r + findMultiplicity ub (S.kv dir) tol ≤ S.deg dir) :
+    insertKnotDir S dir ub r tol check = some (insDirOf S dir ub r tol) :=
+  insertKnotDir_insDirOf S dir ub r tol check hrs
+
+/-! ### non-vacuity of the object-level hypotheses -/
+
+/-- the example surface: inserting 1/4 twice along v (new knot, `s = 0`, `p = 2`) … -/
+example : RoundOk exSurfQ 1 (1/4) 2 (1/10000000) :=
+  roundOk_of_sep exSurfQ 1 (1/4) 2 _ exSurfQ_wf.dir1 (by norm_num) (by decide +kernel) (by decide +kernel)
+    (by decide +kernel) (by decide +kernel) (by decide) (by decide +kernel)
+
+example : OnlyDir 1 ([none, some (1/4)] : List (Option ℚ)) [0, 2] := by
+  intro d' hd
+  rcases d' with _ | _ | d'
+  · left; rfl
+  · exact absurd rfl hd
+  · left; rfl
+
+/-- … and removing it twice again restores the net (concrete run of the model) -/
+example : removeKnot (insertKnot exSurfQ [none, some (1/4)] [0, 2] (1/10000000) true).1 [none, some (1/4)] [0, 2]
+    (1/10000000) 0 true = (exSurfQ, true) :=
+  surface_insert_then_remove 3 exSurfQ exSurfQ_wf 1 (by decide) _ _ (1/4) _ 0 true true
+    (by intro d' hd; rcases d' with _ | _ | d'
+        · left; rfl
+        · exact absurd rfl hd
+        · left; rfl)
+    rfl
+    (roundOk_of_sep exSurfQ 1 (1/4) 2 _ exSurfQ_wf.dir1 (by norm_num) (by decide +kernel) (by decide +kernel)
+      (by decide +kernel) (by decide +kernel) (by decide) (by decide +kernel))
+    (le_refl _)
+
+/-- the example volume: the existing knot 1/2 of the w direction (`s = 1`, `p = 2`) once more -/
+example : RoundOk exVolQ 2 (1/2) 1 (1/10000000) :=
+  roundOk_of_sep exVolQ 2 (1/2) 1 _ exVolQ_wf.dir2 (by norm_num) (by decide +kernel) (by decide +kernel)
+    (by decide +kernel) (by decide +kernel) (by decide) (by decide +kernel)
 
 end C06
